@@ -26,6 +26,10 @@ func newStringPrefixFilter(code *syntax.Code) StringPrefixFilter {
 	if code == nil || code.RightToLeft || code.FindOptimizations == nil {
 		return nil
 	}
+	if code.UsesStartAnchor {
+		// skipping ahead on the raw string would move the position \G refers to
+		return nil
+	}
 
 	opts := code.FindOptimizations
 	minRequiredLength := opts.MinRequiredLength
